@@ -71,6 +71,7 @@ func runC03(w *mc.Worker) {
 	runOriginSeqSpace(w, "origin-L2", 1, 2, []string{"x", "a"}, func(c *seqCase, oc *originCase) {
 		judgeSeqCaseX(w, c, nil, oc, owns, nontriv, true, env.Exact)
 	})
+	runThreeSendersKept(w, owns, nontriv)
 	stage("pow2-w1", "fixed sends through $amt, source+destination weight <= 1; balances and amounts in {0,1,2^63-1,2^63,2^64-1,2^64,2^64+1,2^65}", []string{"fixed"}, 1, 1, 1, pow2Dom(), pow2Dom())
 	if w.Tier == "quick" {
 		stage("send-w2", "fixed sends through $amt, source+destination weight <= 2, depth <= 1; balances {0,1,3,6,-2}^2; amounts {0,1,2,4,7}", []string{"fixed"}, 2, 1, 1, balQ, amtQ)
